@@ -35,7 +35,7 @@ partial def hugeRange (lim : Int) (dynHuge : Bool) : Node → Bool
 partial def valHasHugeInt (lim : Int) : Val → Bool
   | .int _ n => n > lim || n < -lim
   | .arr _ xs | .set _ xs => xs.any (valHasHugeInt lim)
-  | .map kvs | .struct _ _ kvs => kvs.any fun kv => valHasHugeInt lim kv.2
+  | .map kvs | .tmap _ _ kvs | .struct _ _ kvs => kvs.any fun kv => valHasHugeInt lim kv.2
   | _ => false
 
 /-- constant bounds become literals under the model's fold pass; the scan is done on the folded tree -/
